@@ -135,3 +135,48 @@ let register_c16 reg =
       "ok [" ^ show_series s ^ "," ^ show_series i ^ "]"
     | _ -> failwith "gather_obs: arity")
 let () = section register_c16
+
+(* ---- C14 / C15 *)
+let strv v = zlist v
+let show_opt_z = function Some z -> "ok " ^ z_to_string z | None -> "err"
+let optv f = function L [] -> None | L [x] -> Some (f x) | _ -> failwith "opt"
+let show_rates r = "[" ^ z_to_string r.r_interval ^ "," ^ z_to_string r.r_total ^ "]"
+let stage_cfg_of = function
+  | L [mode; sr; er; rate; dist; w; stg; conc; jit; vol; dur; freq; rep; peak; sd; params] ->
+    { sc_mode = optv strv mode; sc_start_rate = optv strv sr; sc_end_rate = optv strv er; sc_rate = optv strv rate;
+      sc_distribution = optv strv dist; sc_weights = optv bv w; sc_stages = optv strv stg;
+      sc_concurrency = optv zv conc; sc_jitter = optv zv jit; sc_volume = optv zv vol;
+      sc_duration = optv zv dur; sc_iter_freq = optv zv freq; sc_repeat = optv zv rep; sc_peak = optv zv peak;
+      sc_stddev = optv zv sd; sc_params = optv (fun p -> L.map str_pair (lv p)) params }
+  | _ -> failwith "stage_cfg"
+let config_of = function
+  | L [scen; def; L [md; conc; mi; mf; mfr; ign]; start; stages] ->
+    { c_scenario = optv strv scen; c_default = stage_cfg_of def;
+      c_limits = { l_max_duration = optv zv md; l_concurrency = optv zv conc; l_max_iterations = optv zv mi;
+                   l_max_failures = optv zv mf; l_max_failures_rate = optv zv mfr; l_ignore_dropped = optv bv ign };
+      c_stage_start = optv zv start; c_stages = L.map stage_cfg_of (lv stages) }
+  | _ -> failwith "config"
+let show_pairs ps = show_list (fun (a, b) -> "[" ^ show_zlist a ^ "," ^ show_zlist b ^ "]") ps
+let show_rstage s =
+  "[" ^ z_to_string s.rs_duration ^ "," ^ z_to_string s.rs_interval ^ "," ^ z_to_string s.rs_users ^ "," ^ show_pairs s.rs_params ^ "]"
+let show_plan p =
+  "[" ^ S.concat "," [show_zlist p.p_scenario; show_list show_rstage p.p_stages; z_to_string p.p_total; z_to_string p.p_max_duration;
+                      z_to_string p.p_concurrency; z_to_string p.p_max_iterations; z_to_string p.p_max_failures;
+                      z_to_string p.p_max_failures_rate; show_bool p.p_ignore_dropped] ^ "]"
+let register_c14 reg =
+  reg "go_parse_duration" (function [s] -> show_opt_z (parse_duration (strv s)) | _ -> failwith "arity");
+  reg "go_atoi" (function [s] -> show_opt_z (atoi (strv s)) | _ -> failwith "arity");
+  reg "go_trim_space" (function [s] -> show_zlist (trim_space (strv s)) | _ -> failwith "arity");
+  reg "parse_rate" (function [s] -> show_res (fun (n, u) -> "[" ^ z_to_string n ^ "," ^ z_to_string u ^ "]") (parse_rate (strv s)) | _ -> failwith "arity");
+  reg "parse_rate_pinned" (function [s] -> show_res (fun (n, u) -> "[" ^ z_to_string n ^ "," ^ z_to_string u ^ "]") (parse_rate_pinned (strv s)) | _ -> failwith "arity");
+  reg "parse_stages" (function [s] -> show_res (show_list (fun (d, t) -> "[" ^ z_to_string d ^ "," ^ z_to_string t ^ "]")) (parse_stages (strv s)) | _ -> failwith "arity");
+  reg "calc_constant" (function [r; d] -> show_res show_rates (calc_constant (strv r) (strv d)) | _ -> failwith "arity");
+  reg "calc_ramp" (function [a; b; d; dur] -> show_res show_rates (calc_ramp (strv a) (strv b) (strv d) (zv dur)) | _ -> failwith "arity");
+  reg "calc_staged" (function [f; s; d] -> show_res show_rates (calc_staged (zv f) (strv s) (strv d)) | _ -> failwith "arity");
+  reg "calc_gaussian" (function [f; sd; w; d] -> show_res show_rates (calc_gaussian (zv f) (zv sd) (bv w) (strv d)) | _ -> failwith "arity");
+  reg "parse_config" (function [c; now] -> show_res show_plan (parse_config (config_of c) (zv now)) | _ -> failwith "arity");
+  reg "fuzz_crashes" (function [n] -> show_bool (z_to_int (zv n) = 0) | _ -> failwith "arity")
+let () = section register_c14
+let register_c15 reg =
+  reg "c15_run_ok" (function [a; b; c; d; e] -> show_bool (c15_run_ok (zv a) (zv b) (zv c) (zv d) (zv e)) | _ -> failwith "arity")
+let () = section register_c15
